@@ -419,7 +419,7 @@ pub fn replay_in_fresh_process(path: &str, id: &str, cpu_s: u64) -> (bool, Strin
     match out {
         Ok(o) => {
             let text = String::from_utf8_lossy(&o.stdout).to_string();
-            let same = text.lines().any(|l| l.starts_with("REPRODUCED ") && l[11..].trim() == id);
+            let same = text.lines().any(|l| l.starts_with("REPRODUCED ") && (id == "*" || l[11..].trim() == id));
             (same, text)
         }
         Err(e) => (false, format!("{}", e)),
